@@ -30,7 +30,7 @@ pub fn prop_info(prop: &str) -> Option<PropInfo> {
         "C10" => p("C10", "exploration", 12000, 96000, "one evaluation = one seeded history with victim events and deletion requests mixing own / foreign / absent / malformed e and a targets in random order; non-trivial = at least one request naming a foreign target was processed; distinct = distinct outcome-sequence hash"),
         "C11" => p("C11", "exploration", 12000, 96000, "one evaluation = one seeded history with 1-3 deletion requests per id/address in every timestamp order, resubmissions of covered and uncovered versions, restarts and rebuild; non-trivial = a store was refused as deleted or an address marker was set; distinct = distinct outcome-sequence hash"),
         "C12" => p("C12", "fault_enumeration", 9000, 72000, "one evaluation = one seeded history in which EVERY fail-point occurrence of EVERY store is made to fail once (the store is then retried without the fault) and every refused store (duplicate/deleted/replaced/invalid delete) is compared, full observation before vs after; non-trivial = at least one injected failure and one refused store were compared; distinct = distinct outcome-sequence hash"),
-        "C13" => p("C13", "fault_enumeration", 1400, 11200, "one evaluation = one seeded history (5-14 ops) in which EVERY hook-granular kill point of every store/remove/vanish/open is snapshotted (byte copy of event.map, data.mdb, lock.mdb = what SIGKILL leaves in the page cache), reopened, compared with {state before, state after} and continued; non-trivial = at least 10 kill points were checked; distinct = distinct outcome-sequence hash"),
+        "C13" => p("C13", "fault_enumeration", 2800, 22400, "half of the evaluations: one seeded schedule of 2-4 real threads (growth races, ephemeral appends, mixes) in which the store files are copied at four instants while all threads are parked and once at the end (= kills of the process in the middle of concurrent work), each copy reopened: every plain store that had returned and every untouched base event must be there with its bytes, and a fresh store must work. The other half: one evaluation = one seeded history (5-14 ops) in which EVERY hook-granular kill point of every store/remove/vanish/open is snapshotted (byte copy of event.map, data.mdb, lock.mdb = what SIGKILL leaves in the page cache), reopened, compared with {state before, state after} and continued; non-trivial = at least 10 kill points were checked; distinct = distinct outcome-sequence hash"),
         "C14" => p("C14", "exploration", 50000, 400000, "one evaluation = one seeded schedule of 2-4 real threads x 1-3 ops over a prepared store, exactly one thread released at a time at the verif yield points, writer lock modelled; history checked against serial replay in lock order with per-reader snapshot windows; non-trivial = the schedule switched threads while an operation was in flight; distinct = distinct (thread, point) schedule hash"),
         "C15" => p("C15", "exploration", 24000, 192000, "one evaluation = one seeded history taking references (address + bytes) and storing across growth steps with the page after the mapping occupied; after every op the address of a fresh lookup is compared with the recorded one (the stale pointer is never dereferenced); non-trivial = a reference was checked across at least one growth; distinct = distinct outcome-sequence hash"),
         "C16" => p("C16", "exploration", 10000, 80000, "one evaluation = one seeded history with drop+new, close+new, copy+open and rebuild (also twice) at random positions over stores with leftovers, long/NUL d markers and 0-3 extra tables; full observation compared before vs after; non-trivial = at least one restart happened with at least 3 stored events; distinct = distinct outcome-sequence hash"),
@@ -52,7 +52,7 @@ fn nontrivial(prop: &str, s: &Stats) -> bool {
         "C10" => s.get("probe/invalid_delete_refused") + s.get("probe/foreign_request_accepted_inert") >= 1,
         "C11" => s.get("store/deleted") + s.get("probe/addr_marker_set") + s.get("probe/id_marker_set") >= 1,
         "C12" => sum_prefix("fault/failpoint/") >= 1 && s.get("probe/failed_store_state_compared") >= 1,
-        "C13" => s.get("fault/kill_points_checked") >= 10,
+        "C13" => s.get("fault/kill_points_checked") >= 10 || s.get("crash/kill_instants_in_concurrent_runs") >= 3,
         "C14" => s.get("conc/switch_in_flight") >= 1,
         "C15" => s.get("ref_checks") >= 1 && s.get("fault/growth") >= 1,
         "C16" => sum_prefix("fault/restart/") >= 1 && s.get("store/ok") >= 3,
@@ -71,6 +71,9 @@ fn conc_share(prop: &str) -> u64 {
         "C09" | "C10" | "C11" => 25,
         "C04" | "C15" | "C18" | "C17" => 15,
         "C05" | "C12" => 10,
+        // (kills in the middle of concurrent growth races; these runs are cheap, the batch is
+        // enlarged by as many)
+        "C13" => 50,
         _ => 0,
     }
 }
